@@ -21,6 +21,7 @@ pub struct XResult {
     pub order: Vec<i64>,
     pub verdict: Option<bool>,
     pub expected: bool,
+    pub slow: bool,
 }
 
 struct Standin {
@@ -30,6 +31,12 @@ struct Standin {
     got: Option<(Vec<u8>, bool)>,
     released: bool,
     early: Option<(Vec<u8>, Exit)>,
+    /// When the prover had read its input (it "runs" from here on).
+    /// The connection broke before the coordinator let the prover finish: somebody (anthem) killed it.
+    died: bool,
+    ready_at: Option<Instant>,
+    /// How long this prover takes (real milliseconds; always below the time limit given with -t).
+    takes_ms: u64,
 }
 
 fn exit_code(e: Exit) -> i32 {
@@ -41,7 +48,7 @@ fn exit_code(e: Exit) -> i32 {
 
 /// Run one case through the shipped binary. Only fault kinds that exist outside the simulator are honoured:
 /// missing executable and early exit; others are ignored by this engine.
-pub fn run_case(bins: &Binaries, case: &Case, reference: &[(String, Vec<u8>)], in_dir: &Path, scratch: &mut Scratch, seed: u64) -> Result<XResult, String> {
+pub fn run_case(bins: &Binaries, case: &Case, reference: &[(String, Vec<u8>)], in_dir: &Path, scratch: &mut Scratch, seed: u64, slow_case: bool) -> Result<XResult, String> {
     let sock_dir = scratch.fresh_dir("sock");
     let sock = sock_dir.join("c.sock");
     let listener = UnixListener::bind(&sock).map_err(|e| format!("bind {}: {e}", sock.display()))?;
@@ -83,6 +90,10 @@ pub fn run_case(bins: &Binaries, case: &Case, reference: &[(String, Vec<u8>)], i
     });
 
     let mut rng = Rng::new(mix2(seed, 0xc10e2));
+    // "slow but within its limit" provers (real time): only with -t 1, so that a case costs seconds, not minutes
+    let t_limit: u64 = case.run_flags.iter().position(|f| f == "-t").and_then(|i| case.run_flags.get(i + 1)).and_then(|v| v.parse().ok()).unwrap_or(60);
+    let slow = slow_case && t_limit == 1 && reference.len() >= 3 && reference.len() <= 14;
+    let (slow_lo, slow_hi) = (450u64, 800u64);
     let mut standins: Vec<Standin> = vec![];
     let mut released = 0usize;
     let mut order: Vec<i64> = vec![];
@@ -112,12 +123,17 @@ pub fn run_case(bins: &Binaries, case: &Case, reference: &[(String, Vec<u8>)], i
                 Some(Fault::EarlyExit { after, stdout, exit }) => Some((*after, stdout.clone(), *exit)),
                 _ => None,
             };
-            let mut st = Standin { w, r, ordinal, got: None, released: false, early: early.as_ref().map(|e| (e.1.clone(), e.2)) };
-            match &early {
-                Some((after, _, _)) => writeln!(st.w, "READ {after}").map_err(|e| e.to_string())?,
-                None => writeln!(st.w, "READ ALL").map_err(|e| e.to_string())?,
+            let takes_ms = if slow { slow_lo + rng.below(slow_hi - slow_lo + 1) } else { 0 };
+            let mut st = Standin { w, r, ordinal, got: None, released: false, early: early.as_ref().map(|e| (e.1.clone(), e.2)), died: false, ready_at: None, takes_ms };
+            let sent = match &early {
+                Some((after, _, _)) => writeln!(st.w, "READ {after}"),
+                None => writeln!(st.w, "READ ALL"),
+            };
+            if sent.is_err() || st.w.flush().is_err() {
+                st.died = true;
+                st.released = true;
+                st.got = Some((vec![], false));
             }
-            st.w.flush().ok();
             standins.push(st);
             progressed = true;
         }
@@ -132,18 +148,42 @@ pub fn run_case(bins: &Binaries, case: &Case, reference: &[(String, Vec<u8>)], i
                     let eof = words.get(2) == Some(&"1");
                     st.r.get_ref().set_read_timeout(Some(Duration::from_secs(20))).ok();
                     let mut buf = vec![0u8; n];
-                    st.r.read_exact(&mut buf).map_err(|e| format!("payload: {e}"))?;
-                    st.got = Some((buf, eof));
+                    if st.r.read_exact(&mut buf).is_err() {
+                        st.died = true;
+                        st.released = true;
+                        st.got = Some((vec![], false));
+                    } else {
+                        st.got = Some((buf, eof));
+                        st.ready_at = Some(Instant::now());
+                    }
                     progressed = true;
                 }
-                _ => {}
+                Ok(_) => {
+                    // EOF before any report: the prover process is gone
+                    st.died = true;
+                    st.released = true;
+                    st.got = Some((vec![], false));
+                    progressed = true;
+                }
+                Err(_) => {}
             }
         }
         // release one prover when the set of waiting provers is quiescent
-        let waiting: Vec<usize> = standins.iter().enumerate().filter(|(_, s)| s.got.is_some() && !s.released).map(|(i, _)| i).collect();
+        let all_waiting = standins.iter().filter(|s| s.got.is_some() && !s.released).count();
+        // a slow prover cannot be released before it has "run" for its duration
+        let waiting: Vec<usize> = standins
+            .iter()
+            .enumerate()
+            .filter(|(_, s)| s.got.is_some() && !s.released && s.ready_at.map(|t| t.elapsed() >= Duration::from_millis(s.takes_ms)).unwrap_or(false))
+            .map(|(i, _)| i)
+            .collect();
+        if all_waiting > waiting.len() {
+            // time is passing for a slow prover: that is progress, not a stall
+            last_progress = Instant::now();
+        }
         let remaining = total.saturating_sub(released);
         let expect = case.instances.max(1).min(remaining.max(1));
-        let quiescent = waiting.len() >= expect;
+        let quiescent = all_waiting >= expect;
         let grace = !waiting.is_empty() && last_progress.elapsed() > Duration::from_millis(1500);
         if !waiting.is_empty() && (quiescent || grace) {
             if !quiescent {
@@ -159,10 +199,10 @@ pub fn run_case(bins: &Binaries, case: &Case, reference: &[(String, Vec<u8>)], i
                     (o.stdout, o.stderr, exit_code(o.exit))
                 }
             };
-            write!(st.w, "FINISH {code} {} {}\n", out.len(), err.len()).map_err(|e| e.to_string())?;
-            st.w.write_all(&out).map_err(|e| e.to_string())?;
-            st.w.write_all(&err).map_err(|e| e.to_string())?;
-            st.w.flush().ok();
+            let sent = write!(st.w, "FINISH {code} {} {}\n", out.len(), err.len()).and_then(|_| st.w.write_all(&out)).and_then(|_| st.w.write_all(&err)).and_then(|_| st.w.flush());
+            if sent.is_err() {
+                st.died = true;
+            }
             st.released = true;
             released += 1;
             order.push(reference.iter().position(|(_, b)| *b == bytes).map(|i| i as i64).unwrap_or(-1));
@@ -200,13 +240,16 @@ pub fn run_case(bins: &Binaries, case: &Case, reference: &[(String, Vec<u8>)], i
         Some(st) if !st.success() => v.push(mk("X-exit", format!("anthem exited with {st:?}; stderr: {}", String::from_utf8_lossy(&stderr).chars().take(300).collect::<String>()))),
         _ => {}
     }
+    for st in standins.iter().filter(|s| s.died) {
+        v.push(mk("I6-prover-killed", format!("prover #{} disappeared before the coordinator let it finish: anthem killed it (or closed its pipes) while it was still running within its time limit", st.ordinal)));
+    }
     let mut used = vec![0usize; total];
     let mut all_proven = !case.plan.spawn_all_enoent || total == 0;
     if exited.is_some() {
         if !case.plan.spawn_all_enoent && standins.len() != total {
             v.push(mk("I3-attempts", format!("{} prover processes connected for {} emitted problems", standins.len(), total)));
         }
-        for st in &standins {
+        for st in standins.iter().filter(|s| !s.died) {
             let (bytes, eof) = st.got.clone().unwrap_or_default();
             if st.early.is_some() && !eof {
                 all_proven = false;
@@ -256,7 +299,7 @@ pub fn run_case(bins: &Binaries, case: &Case, reference: &[(String, Vec<u8>)], i
     if let Some(d) = out_dir {
         let _ = std::fs::remove_dir_all(d);
     }
-    Ok(XResult { violations: v, stdout, connections: standins.len(), grace_used, order, verdict, expected: all_proven })
+    Ok(XResult { violations: v, stdout, connections: standins.len(), grace_used, order, verdict, expected: all_proven, slow })
 }
 
 #[derive(Default, serde::Serialize)]
@@ -269,6 +312,7 @@ pub struct XSummary {
     pub missing_executable_runs: u64,
     pub early_exit_runs: u64,
     pub out_of_order_completions: u64,
+    pub slow_prover_runs: u64,
     pub by_instances: BTreeMap<String, u64>,
 }
 
@@ -308,7 +352,17 @@ pub fn campaign(seed: u64, n: u64, thorough: bool, workers: usize, e2_only: bool
                 // keep only the fault kinds E2 can produce
                 case.plan.faults.retain(|_, f| matches!(f, Fault::EarlyExit { .. }));
                 let fault_free = case.plan.faults.is_empty() && !case.plan.spawn_all_enoent;
-                let x = match run_case(&bins, &case, &prep.reference, &prep.in_dir, &mut scratch, mix2(seed, i)) {
+                // every 6th case asks for slow provers; to make that likely to apply, force -t 1 there
+                let slow_case = j % 6 == 5;
+                if slow_case {
+                    if let Some(p) = case.run_flags.iter().position(|f| f == "-t") {
+                        case.run_flags[p + 1] = "1".into();
+                    } else {
+                        case.run_flags.push("-t".into());
+                        case.run_flags.push("1".into());
+                    }
+                }
+                let x = match run_case(&bins, &case, &prep.reference, &prep.in_dir, &mut scratch, mix2(seed, i), slow_case) {
                     Ok(x) => x,
                     Err(e) => {
                         acc.lock().unwrap().2.push(format!("case {j}: coordinator error: {e}"));
@@ -346,6 +400,9 @@ pub fn campaign(seed: u64, n: u64, thorough: bool, workers: usize, e2_only: bool
                 }
                 if !x.order.windows(2).all(|w| w[0] <= w[1]) {
                     a.0.out_of_order_completions += 1;
+                }
+                if x.slow {
+                    a.0.slow_prover_runs += 1;
                 }
                 for v in &x.violations {
                     a.1.push((j, v.clone()));
